@@ -42,7 +42,7 @@ func reachableFrom(m *model.Model, root *ssa.Function) []*ssa.Function {
 				if !ok {
 					continue
 				}
-				cal := ci.Common().StaticCallee()
+				cal := model.Unthunk(ci.Common().StaticCallee())
 				if cal == nil || seen[cal] || len(cal.Blocks) == 0 || !m.InDecimalPkg(cal) {
 					continue
 				}
@@ -97,6 +97,8 @@ func lowerBoundOnEdge(bo *ssa.BinOp, v ssa.Value) (edge int, bound int64, ok boo
 }
 
 func runGobBytes(m *model.Model, s *ob.Set) {
+	runGobDefined(m, s)
+	runGobWholeWord(m, s)
 	const R = "GOB"
 	dec := m.TryLookup("(*Decimal).GobDecode")
 	enc := m.TryLookup("(*Decimal).GobEncode")
@@ -154,6 +156,9 @@ func runGobBytes(m *model.Model, s *ob.Set) {
 					if e, k, ok := lowerBoundOnEdge(bo, sub.X); ok && k >= c && m.EdgeDominates(gb, e, b) {
 						guarded = true
 					}
+				}
+				if !guarded && countedDescent(m, fn, stripConv(sub.X), c, b) {
+					guarded = true
 				}
 				if !guarded {
 					bad = append(bad, fmt.Sprintf("%s: %s is used as an index/low bound of a byte slice with no dominating test that %s >= %d", m.InstrPos(in), exprKey(m, idx, 3), exprKey(m, sub.X, 3), c))
@@ -310,4 +315,311 @@ func dependsOnWordLoad(m *model.Model, v ssa.Value, depth int, seen map[ssa.Valu
 		}
 	}
 	return false
+}
+
+// GOB G8 — every return of GobDecode that reports success has defined the receiver's value: form
+// and sign are written (field by field, by a whole-value store `*z = Decimal{}`, or by a method of
+// z that defines them on all its returns) on every path to it. The empty encoding (a nil or
+// default value on the other side) is the value 0, not "whatever z held before".
+func runGobDefined(m *model.Model, s *ob.Set) {
+	const R = "GOB"
+	fn := m.TryLookup("(*Decimal).GobDecode")
+	if fn == nil || len(fn.Params) < 2 {
+		return
+	}
+	z := ssa.Value(fn.Params[0])
+	live := m.Live(fn)
+	e := newRBW(m)
+	need := uint(1<<uint(m.F.Form) | 1<<uint(m.F.Neg))
+	n := len(fn.Blocks)
+	in := make([]int, n) // -1 unreached, else the set of fields defined on every path
+	for i := range in {
+		in[i] = -1
+	}
+	in[0] = 0
+	step := func(b *ssa.BasicBlock, st int, rec func(*ssa.Return, int)) int {
+		for _, ins := range b.Instrs {
+			switch x := ins.(type) {
+			case *ssa.Store:
+				if x.Addr == z {
+					st |= int(need)
+				} else if fa, ok := x.Addr.(*ssa.FieldAddr); ok && fa.X == z {
+					st |= 1 << uint(fa.Field)
+				}
+			case *ssa.Call:
+				cal := model.Unthunk(x.Call.StaticCallee())
+				if cal != nil && len(x.Call.Args) > 0 && x.Call.Args[0] == z && m.IsDecMethod(cal) {
+					if sm := e.sums[cal]; sm != nil && sm[0] != nil {
+						st |= int(sm[0].mustDef)
+					}
+				}
+			case *ssa.Return:
+				if rec != nil {
+					rec(x, st)
+				}
+			}
+		}
+		return st
+	}
+	work := []int{0}
+	for len(work) > 0 {
+		bi := work[len(work)-1]
+		work = work[:len(work)-1]
+		if !live[bi] {
+			continue
+		}
+		out := step(fn.Blocks[bi], in[bi], nil)
+		for _, ed := range model.LiveSuccs(fn.Blocks[bi]) {
+			t := ed.To.Index
+			nv := out
+			if in[t] >= 0 {
+				nv = in[t] & out
+			}
+			if nv != in[t] {
+				in[t] = nv
+				work = append(work, t)
+			}
+		}
+	}
+	bad := ""
+	nret := 0
+	for bi, b := range fn.Blocks {
+		if in[bi] < 0 || !live[bi] {
+			continue
+		}
+		step(b, in[bi], func(r *ssa.Return, st int) {
+			if len(r.Results) != 1 {
+				return
+			}
+			if c, ok := r.Results[0].(*ssa.Const); !ok || !c.IsNil() {
+				return
+			}
+			nret++
+			if uint(st)&need != need && bad == "" {
+				bad = m.InstrPos(r) + ": success is reported on a path that has not defined the receiver's form and sign: the receiver keeps the value it had (an empty encoding stands for the value 0)"
+			}
+		})
+	}
+	if nret > 0 {
+		s.Check(bad == "", R, "(*Decimal).GobDecode/G8-defined", m.Pos(fn.Pos()), fmt.Sprintf("%d successful return(s), form and sign defined on every path to each", nret), bad)
+	}
+}
+
+// countedDescent: v is an offset that starts at len(buf) and goes down by c per round of a loop
+// whose rounds are counted by k = 0, 1, … while k < len(buf)/c: inside the loop v = len(buf) − c·k
+// with k ≤ len(buf)/c − 1, hence v ≥ c.
+func countedDescent(m *model.Model, fn *ssa.Function, v ssa.Value, c int64, site *ssa.BasicBlock) bool {
+	end, ok := v.(*ssa.Phi)
+	if !ok || len(end.Edges) != 2 {
+		return false
+	}
+	hb := end.Block()
+	var lenCall *ssa.Call
+	okStep := false
+	for i, e := range end.Edges {
+		e = stripConv(e)
+		if m.Dominates(hb, hb.Preds[i]) { // back edge
+			if sb, ok := e.(*ssa.BinOp); ok && sb.Op == token.SUB && stripConv(sb.X) == ssa.Value(end) {
+				if k, ok := model.ConstInt(sb.Y); ok && k == c {
+					okStep = true
+				}
+			}
+		} else if lc, ok := e.(*ssa.Call); ok && model.BuiltinName(&lc.Call) == "len" {
+			lenCall = lc
+		}
+	}
+	if !okStep || lenCall == nil || len(hb.Instrs) == 0 {
+		return false
+	}
+	ifi, ok := hb.Instrs[len(hb.Instrs)-1].(*ssa.If)
+	if !ok {
+		return false
+	}
+	bo, ok := ifi.Cond.(*ssa.BinOp)
+	if !ok || bo.Op != token.LSS {
+		return false
+	}
+	k, ok := stripConv(bo.X).(*ssa.Phi)
+	if !ok || k.Block() != hb || len(k.Edges) != 2 {
+		return false
+	}
+	okCount := true
+	for i, e := range k.Edges {
+		e = stripConv(e)
+		if m.Dominates(hb, hb.Preds[i]) {
+			ad, ok := e.(*ssa.BinOp)
+			if !ok || ad.Op != token.ADD || stripConv(ad.X) != ssa.Value(k) {
+				okCount = false
+			} else if one, ok := model.ConstInt(ad.Y); !ok || one != 1 {
+				okCount = false
+			}
+		} else if z, ok := model.ConstInt(e); !ok || z != 0 {
+			okCount = false
+		}
+	}
+	if !okCount {
+		return false
+	}
+	// the bound: len(same slice) / c
+	q, ok := stripConv(bo.Y).(*ssa.BinOp)
+	if !ok || q.Op != token.QUO {
+		return false
+	}
+	if d, ok := model.ConstInt(q.Y); !ok || d != c {
+		return false
+	}
+	lc2, ok := stripConv(q.X).(*ssa.Call)
+	if !ok || model.BuiltinName(&lc2.Call) != "len" || stripConvAny(lc2.Call.Args[0]) != stripConvAny(lenCall.Call.Args[0]) {
+		return false
+	}
+	return m.EdgeDominates(hb, 0, site)
+}
+
+// GOB G10 — a fixed-width read gets a whole word. A helper that hands its byte-slice parameter to
+// encoding/binary's Uint64/Uint32/Uint16 (bigEndianWord) panics on a shorter slice; its callers
+// pass s[v-c : v] with c at least the width. A call with s[:v] (or s[lo:v]) behind an edge that
+// established v < width is a read of a partial word with the whole-word reader: a truncated or
+// padded encoding then panics instead of being decoded or rejected.
+func runGobWholeWord(m *model.Model, s *ob.Set) {
+	const R = "GOB"
+	type reader struct {
+		fn    *ssa.Function
+		k     int
+		width int64
+	}
+	widthOf := func(c *ssa.CallCommon) int64 {
+		cal := c.StaticCallee()
+		if cal == nil || cal.Pkg == nil || cal.Pkg.Pkg.Path() != "encoding/binary" {
+			return 0
+		}
+		switch cal.Name() {
+		case "Uint64":
+			return 8
+		case "Uint32":
+			return 4
+		case "Uint16":
+			return 2
+		}
+		return 0
+	}
+	var readers []reader
+	for _, fn := range m.Funcs {
+		if !m.InDecimalPkg(fn) || len(fn.Blocks) == 0 || fn.Synthetic != "" {
+			continue
+		}
+		live := m.Live(fn)
+		for _, b := range fn.Blocks {
+			if !live[b.Index] {
+				continue
+			}
+			for _, in := range b.Instrs {
+				c, ok := in.(*ssa.Call)
+				if !ok {
+					continue
+				}
+				w := widthOf(&c.Call)
+				if w == 0 || len(c.Call.Args) == 0 {
+					continue
+				}
+				if p, ok := c.Call.Args[len(c.Call.Args)-1].(*ssa.Parameter); ok {
+					for k, q := range fn.Params {
+						if q == p {
+							dup := false
+							for i := range readers {
+								if readers[i].fn == fn && readers[i].k == k {
+									dup = true
+									if w > readers[i].width {
+										readers[i].width = w
+									}
+								}
+							}
+							if !dup {
+								readers = append(readers, reader{fn, k, w})
+							}
+						}
+					}
+				}
+			}
+		}
+	}
+	n := 0
+	for _, rd := range readers {
+		for _, fn := range m.Funcs {
+			if !m.InDecimalPkg(fn) || len(fn.Blocks) == 0 || fn.Synthetic != "" {
+				continue
+			}
+			live := m.Live(fn)
+			k := 0
+			for _, b := range fn.Blocks {
+				if !live[b.Index] {
+					continue
+				}
+				for _, in := range b.Instrs {
+					cal, c := model.Callee(in)
+					if cal != rd.fn || rd.k >= len(c.Args) {
+						continue
+					}
+					n++
+					k++
+					cn := fmt.Sprintf("%s/G10:whole-word#%d", m.FuncName(fn), k)
+					sl, ok := c.Args[rd.k].(*ssa.Slice)
+					if !ok || sl.High == nil {
+						s.Note(R, cn, m.InstrPos(in), fmt.Sprintf("the slice handed to %s is not of the form s[lo:hi] (length not decided)", rd.fn.Name()))
+						continue
+					}
+					// hi - lo as a constant
+					if sl.Low != nil {
+						if bo, ok := sl.Low.(*ssa.BinOp); ok && bo.Op == token.SUB && bo.X == sl.High {
+							if kc, ok := model.ConstInt(bo.Y); ok {
+								s.Check(kc >= rd.width, R, cn, m.InstrPos(in), fmt.Sprintf("%s reads %d bytes from a slice of %d", rd.fn.Name(), rd.width, kc), fmt.Sprintf("%s reads %d bytes; the slice it is handed holds %d", rd.fn.Name(), rd.width, kc))
+								continue
+							}
+						}
+						if bo, ok := sl.High.(*ssa.BinOp); ok && bo.Op == token.ADD && bo.X == sl.Low {
+							if kc, ok := model.ConstInt(bo.Y); ok {
+								s.Check(kc >= rd.width, R, cn, m.InstrPos(in), fmt.Sprintf("%s reads %d bytes from a slice of %d", rd.fn.Name(), rd.width, kc), fmt.Sprintf("%s reads %d bytes; the slice it is handed holds %d", rd.fn.Name(), rd.width, kc))
+								continue
+							}
+						}
+					}
+					// s[:v] / s[lo:v] with v known to be below the width on the way here
+					short := false
+					for _, gb := range fn.Blocks {
+						if len(gb.Instrs) == 0 {
+							continue
+						}
+						ifi, ok := gb.Instrs[len(gb.Instrs)-1].(*ssa.If)
+						if !ok {
+							continue
+						}
+						bo, ok := ifi.Cond.(*ssa.BinOp)
+						if !ok || bo.X != sl.High {
+							continue
+						}
+						kc, ok := model.ConstInt(bo.Y)
+						if !ok {
+							continue
+						}
+						for si := 0; si < 2; si++ {
+							op := bo.Op
+							if si == 1 {
+								op = negOp[op]
+							}
+							if (op == token.LSS && kc <= rd.width || op == token.LEQ && kc < rd.width) && m.EdgeDominates(gb, si, b) {
+								short = true
+							}
+						}
+					}
+					if short {
+						s.Bad(R, cn, m.InstrPos(in), fmt.Sprintf("%s reads %d bytes, and is handed a slice that ends at an index the path has found to be below %d: the partial leading word of an encoding whose length is not a multiple of the word size makes it panic", rd.fn.Name(), rd.width, rd.width))
+					} else {
+						s.Note(R, cn, m.InstrPos(in), fmt.Sprintf("the length of the slice handed to %s is not a constant difference (not decided)", rd.fn.Name()))
+					}
+				}
+			}
+		}
+	}
+	if len(readers) == 0 || n == 0 {
+		s.Note(R, "G10:whole-word", "-", "no helper that hands its parameter to a fixed-width read (not decided)")
+	}
 }
